@@ -249,6 +249,9 @@ func (m *c13Mon) read(name string, f func()) {
 }
 
 func c13Kind(name string) string {
+	if strings.HasPrefix(name, "quiet-burst[") {
+		return "quiet-burst"
+	}
 	if i := strings.IndexByte(name, '('); i > 0 && !strings.HasSuffix(name, "(nil)") && !strings.HasSuffix(name, "(i)") {
 		return name[:i]
 	}
@@ -731,6 +734,86 @@ func c13AddRoot(m *c13Mon, r *fw.Rand) {
 	})
 }
 
+// c13QuietBurst: two to four edits in a row with NO read in between - the
+// monitor itself reads every view after every step, which re-fills the caches
+// and can hide an edit that leaves a cache half-updated for the next edit.
+// The candidates are collected before the burst; the views are only checked
+// after it.
+func c13QuietBurst(m *c13Mon, r *fw.Rand) {
+	inds, fams, roots := m.doc.Individuals(), m.doc.Families(), m.doc.Nodes()
+	type step struct {
+		name string
+		do   func()
+	}
+	var steps []step
+	n := r.Range(2, 4)
+	for k := 0; k < n; k++ {
+		switch r.Intn(7) {
+		case 0:
+			if len(roots) > 0 {
+				x := roots[r.Intn(len(roots))]
+				steps = append(steps, step{"Document.DeleteNode(" + x.Tag().Tag() + ")", func() {
+					if m.doc.DeleteNode(x) {
+						m.deleted = append(m.deleted, x)
+					}
+				}})
+			}
+		case 1:
+			ptr := m.freshPtr("F")
+			var h, w *gedcom.IndividualNode
+			if len(inds) > 0 {
+				h, w = inds[r.Intn(len(inds))], inds[r.Intn(len(inds))]
+			}
+			m.tags["FAMS"], m.tags["HUSB"], m.tags["WIFE"] = true, true, true
+			steps = append(steps, step{"AddFamilyWithHusbandAndWife", func() { m.doc.AddFamilyWithHusbandAndWife(ptr, h, w) }})
+		case 2:
+			ptr := m.freshPtr("I")
+			m.tags["NAME"] = true
+			steps = append(steps, step{"AddIndividual", func() { m.doc.AddIndividual(ptr, gedcom.NewNameNode("Quiet /Burst/")) }})
+		case 3:
+			if len(fams) > 0 && len(inds) > 0 {
+				f, i := fams[r.Intn(len(fams))], inds[r.Intn(len(inds))]
+				m.tags["HUSB"], m.tags["WIFE"] = true, true
+				if r.Bool() {
+					steps = append(steps, step{"SetHusband(i)", func() { f.SetHusband(i) }})
+				} else {
+					steps = append(steps, step{"SetWife(nil)", func() { f.SetWife(nil) }})
+				}
+			}
+		case 4:
+			if len(fams) > 0 && len(inds) > 0 {
+				f, i := fams[r.Intn(len(fams))], inds[r.Intn(len(inds))]
+				m.tags["CHIL"], m.tags["FAMC"] = true, true
+				steps = append(steps, step{"AddChild", func() { f.AddChild(i) }})
+			}
+		case 5:
+			ptr := m.freshPtr("F")
+			steps = append(steps, step{"AddFamily", func() { m.doc.AddFamily(ptr) }})
+		case 6:
+			if len(m.deleted) > 0 {
+				k := r.Intn(len(m.deleted))
+				x := m.deleted[k]
+				m.deleted = append(m.deleted[:k:k], m.deleted[k+1:]...)
+				steps = append(steps, step{"Document.AddNode(deleted " + x.Tag().Tag() + " again)", func() { m.doc.AddNode(x) }})
+			}
+		}
+	}
+	if len(steps) < 2 {
+		return
+	}
+	var names []string
+	for _, st := range steps {
+		names = append(names, st.name)
+	}
+	name := "quiet-burst[" + strings.Join(names, ", ") + "]"
+	m.edit(name, func() string {
+		for _, st := range steps {
+			st.do()
+		}
+		return ""
+	})
+}
+
 // further reads (random histories only)
 
 type c13Recorder struct{ files int }
@@ -787,7 +870,7 @@ func c13OtherReads(m *c13Mon, r *fw.Rand) {
 			_ = html.NewPublisher(m.doc, opts).Publish(&c13Recorder{}, 1)
 		})
 	case 5:
-		qs := []string{".Individuals | .Name | .String", ".Families | .Husband | .Individual | .Pointer", ".Individuals | .Spouses | Length", ".Individuals | NodesWithTagPath(\"BIRT\", \"DATE\") | .String", ".Individuals | Only(.Pointer = \"I1\") | .Families", ".Nodes | Length", ".Individuals | { n: .Name | .String, p: .Parents | Length }"}[r.Intn(7)]
+		qs := []string{"Combine(.Nodes | First(1), .Nodes | Last(1))", "Combine(.Families | First(1), .Families)", "Combine(.Individuals | First(2), .Individuals | Last(1)) | .Pointer", ".Individuals | First(2) | .Spouses", ".Families | Last(1) | .Children", ".Nodes | First(1) | .Nodes | Last(2)", ".Individuals | Only(.Pointer != \"\") | First(1) | .Parents", "X are .Individuals; Combine(X | First(1), X) | .Pointer", ".Individuals | .Name | .String", ".Families | .Husband | .Individual | .Pointer", ".Individuals | .Spouses | Length", ".Individuals | NodesWithTagPath(\"BIRT\", \"DATE\") | .String", ".Individuals | Only(.Pointer = \"I1\") | .Families", ".Nodes | Length", ".Individuals | { n: .Name | .String, p: .Parents | Length }"}[r.Intn(15)]
 		m.read("query", func() {
 			if e, err := q.NewParser().ParseString(qs); err == nil {
 				_, _ = e.Evaluate([]*gedcom.Document{m.doc})
@@ -808,7 +891,7 @@ func c13OtherReads(m *c13Mon, r *fw.Rand) {
 var c13Alphabet = []c13Op{c13ReadViews, c13Warnings, c13AddChildNode, c13DeleteChildNode, c13SetNodes, c13AddIndividual, c13AddFamilyWithSpouses, c13ClearHusband, c13DeleteRoot}
 var c13AlphabetNames = []string{"read-all", "warnings", "add-child-node", "delete-child-node", "set-nodes", "add-individual", "add-family+spouses", "clear-husband/wife", "delete-root-record"}
 
-var c13AllOps = append(append([]c13Op{}, c13Alphabet...), c13String, c13SetSpouse, c13AddChild, c13IndividualSetters, c13DeleteWithTag, c13AddRoot, c13OtherReads, c13OtherReads)
+var c13AllOps = append(append([]c13Op{}, c13Alphabet...), c13String, c13SetSpouse, c13AddChild, c13IndividualSetters, c13DeleteWithTag, c13AddRoot, c13OtherReads, c13OtherReads, c13QuietBurst, c13QuietBurst)
 
 const c13FixedDoc = "0 HEAD\n1 CHAR UTF-8\n0 @I1@ INDI\n1 NAME John /Smith/\n1 SEX M\n1 BIRT\n2 DATE 3 Sep 1843\n1 FAMS @F1@\n0 @I2@ INDI\n1 NAME Mary /Jones/\n1 SEX F\n1 FAMS @F1@\n0 @I3@ INDI\n1 NAME Sam /Smith/\n1 BIRT\n2 DATE 5 May 1870\n1 FAMC @F1@\n0 @F1@ FAM\n1 HUSB @I1@\n1 WIFE @I2@\n1 CHIL @I3@\n1 MARR\n2 DATE 1 Jan 1868\n0 TRLR\n"
 
